@@ -97,6 +97,8 @@ def dateTimeFormat : List String := ["\"20060102.15:04:05.000\""]
 
 def extDat : List String := ["\".dat\""]
 
+def globEscaper : List String := ["strings.NewReplacer( `\\`, `\\\\`, `*`, `\\*`, `?`, `\\?`, `[`, `\\[`, )"]
+
 def rTimestamp : List String := ["regexp.MustCompile(`2\\d{7}.\\d{2}:\\d{2}:\\d{2}(\\.\\d{3})?`)"]
 
 def requestIDLenSafe : List String := ["8"]
